@@ -149,7 +149,17 @@ pub fn check(s: &Scenario) -> CheckResult {
     let mut set_time_after_move = false;
     let mut moved = false;
     let mut follow_count = 0;
+    // the crate's own Settable implementors keep the same bookkeeping (their `set` may be overridden): a CommandPID and a Terminal
+    let pid_input = rc_ref_cell_reference(Scripted::<State>::new());
+    let mut pid = rrtk::streams::control::CommandPID::new(pid_input, Command::new(PositionDerivative::Position, 0.0), PositionDerivativeDependentPIDKValues::new(PIDKValues::new(1.0, 0.0, 0.0), PIDKValues::new(1.0, 0.0, 0.0), PIDKValues::new(1.0, 0.0, 0.0)));
+    ensure!(pid.get_last_request().is_none(), "C15/command-pid/last-request", "a new CommandPID reports the last request {:?}", pid.get_last_request());
     for (i, op) in s.ops.iter().enumerate() {
+        if let Op::Set(v, _) | Op::CSet(v) = *op {
+            // the first sets repeat the command the controller was built with: still a successful set with that argument
+            let cmd = if i < 2 { Command::new(PositionDerivative::Position, 0.0) } else { Command::new([PositionDerivative::Position, PositionDerivative::Velocity, PositionDerivative::Acceleration][(v.unsigned_abs() % 3) as usize], (v % 1000) as f32) };
+            let r = pid.set(cmd);
+            ensure!(r.is_ok() && pid.get_last_request() == Some(cmd), "C15/command-pid/last-request", "op {}: CommandPID::set({:?}) returned {:?}; get_last_request() = {:?}", i, cmd, r, pid.get_last_request());
+        }
         match *op {
             Op::Set(v, ok) => {
                 succeed.set(ok);
